@@ -74,6 +74,10 @@ pub enum BOp {
     Remove0(u8),
     Reserve1(u8),
     ReserveHalf(u8),
+    /// `try_reserve(usize::MAX - len)`: must be refused and change nothing
+    TryReserveMax(u8),
+    /// `try_reserve(isize::MAX - len - 4)`: header + capacity is past the allocation limit
+    TryReserveLimit(u8),
     ShrinkFit(u8),
     ShrinkToB1(u8),
     Drop(u8),
@@ -102,7 +106,7 @@ fn static_text(d: i8) -> &'static str {
 
 fn slot_ops(i: u8) -> Vec<BOp> {
     use BOp::*;
-    vec![Push(i), PushWide(i), PushStr(i), Pop(i), TruncSmall(i), TruncLast(i), TruncB(i), Clear(i), Insert0(i), Remove0(i), Reserve1(i), ReserveHalf(i), ShrinkFit(i), ShrinkToB1(i), Drop(i)]
+    vec![Push(i), PushWide(i), PushStr(i), Pop(i), TruncSmall(i), TruncLast(i), TruncB(i), Clear(i), Insert0(i), Remove0(i), Reserve1(i), ReserveHalf(i), TryReserveMax(i), TryReserveLimit(i), ShrinkFit(i), ShrinkToB1(i), Drop(i)]
 }
 
 /// every sequence of at most `depth` applicable operations (applicability depends only on which
@@ -227,6 +231,24 @@ fn apply(st: &mut St, op: BOp, out: &mut Vec<(&'static str, String)>) {
                     }
                 }
                 Err(e) => out.push(("outcome", format!("{op:?}: reserve({n}) panicked: {e}"))),
+            }
+        }
+        TryReserveMax(i) | TryReserveLimit(i) => {
+            let s = st.s[i as usize].as_mut().unwrap();
+            let (len, cap) = (s.len(), s.capacity());
+            let n = if matches!(op, TryReserveMax(_)) { usize::MAX - len } else { (isize::MAX as usize).saturating_sub(len + 4) };
+            match quiet(|| s.try_reserve(n).is_ok()) {
+                Ok(true) => {
+                    if s.capacity() < len.saturating_add(n) {
+                        out.push(("reserve-post", format!("{op:?}: try_reserve({n}) returned Ok with capacity {}", s.capacity())));
+                    }
+                }
+                Ok(false) => {
+                    if s.len() != len || s.capacity() != cap {
+                        out.push(("reserve-refused", format!("{op:?}: refused try_reserve({n}) changed len/capacity {len}/{cap} -> {}/{}", s.len(), s.capacity())));
+                    }
+                }
+                Err(e) => out.push(("outcome", format!("{op:?}: try_reserve({n}) panicked: {e}"))),
             }
         }
         ShrinkFit(i) | ShrinkToB1(i) => {
